@@ -368,6 +368,11 @@ def _job(args):
                     return (kind, name, 'skipped', 'patch does not apply to the current tree')
                 chk = _decide(prop, None, tmp)
                 hits = [f for ob in chk.obligations for f in ob.findings if f.key not in known]
+                if meta.get('status') == 'open':
+                    # a confirmed harmful change that no rule reports yet (recorded as such in DESIGN 10.7): not a self-test failure
+                    if hits:
+                        return (kind, name, 'ok', 'open seed is reported now by ' + ', '.join(sorted({f.obligation for f in hits})))
+                    return (kind, name, 'skipped', 'open seed: confirmed harmful, not reported by any rule of this property (recorded)')
                 if meta.get('status') == 'retired':
                     return (kind, name, 'skipped', 'retired seed (no longer demonstrated on the repaired tree)')
                 if meta.get('status') == 'withheld':
